@@ -15,6 +15,8 @@ C04 (`e=c04`):
 C05 (`e=c05`): see harness/query/src/c05.rs for the op lines (`ent fld build row upgrade q qs qe qf qo ql qa qn
 run pages`); `run` prints `res=[…]` (canonical rows: the evaluator's order, rows that tie on every visible
 order key sorted by their text) or `err:sql`, `pages` the successive pages of `first n, after(last)`.
+`sqlck` prints the statement of the compiler model (`SqlGen.render (compile q)` / `render1 (compile1 q)`), its bound
+values and the rows `SqlSem.run` / `run1` predicts on the modelled tables; `sqltbl` / `sqledge` print those tables.
 anything else -> bad-op
 -/
 open Discret Discret.Proto Discret.Value
